@@ -44,8 +44,17 @@ class ToolOps(StepOps):
         self.fns = fns or {}
         self.truths: Dict[Any, bool] = truths or {}
         self.ranks: Dict[Any, int] = ranks or {}
+        self.seq_items: Dict[int, List[Any]] = {}
 
     def _pull(self, it, env):
+        if it[0] == "SEQIT":
+            pos = dict(env.get("@seqpos", {}))
+            i = pos.get(it[1], 0)
+            if i >= len(self.seq_items[it[1]]):
+                return ("@raise", "StopAsyncIteration")
+            pos[it[1]] = i + 1
+            env["@seqpos"] = pos
+            return self.seq_items[it[1]][i]
         v = super()._pull(it, env)
         if isinstance(v, tuple) and v[:1] == ("item",) and v[1] in self.items:
             return self.items[v[1]][v[2]]
@@ -53,6 +62,10 @@ class ToolOps(StepOps):
 
     def name(self, ident, env):
         return ("GLOBAL", ident)
+
+    @staticmethod
+    def _is_iter(v) -> bool:
+        return isinstance(v, tuple) and v[:1] in (("IT",), ("REPEAT",), ("ZIP",), ("SEQIT",))
 
     def entered(self, item, env, ev):
         return ev.eval(item.context_expr, env)
@@ -69,6 +82,13 @@ class ToolOps(StepOps):
             n_obj = env.get("@objects", 0)
             env["@objects"] = n_obj + 1
             return ("OBJ", n_obj)  # a fresh private marker
+        if last in ("ScopedIter", "aiter", "iter") and len(args) == 1 and not self._is_iter(args[0]) \
+                and self._elements(args[0], env) is not None and not self._is_list(args[0]):
+            # a (synchronous) sequence of the model, e.g. the tuple of ``*iterables``: iterating it hands out its elements
+            n_seq = env.get("@seqs", 0)
+            env["@seqs"] = n_seq + 1
+            self.seq_items[n_seq] = list(self._elements(args[0], env))
+            return ("SEQIT", n_seq)
         if last == "ScopedIter" and len(args) == 1 and self._is_iter(args[0]):
             return args[0]
         if last == "zip" and not node.keywords:
@@ -96,6 +116,12 @@ class ToolOps(StepOps):
             if op in ("Lt", "LtE", "Gt", "GtE", "Eq", "NotEq"):
                 return {"Lt": a < b, "LtE": a <= b, "Gt": a > b, "GtE": a >= b, "Eq": a == b, "NotEq": a != b}[op]
         r = super().compare(op, left, right, env)
+        if r is UNKNOWN and op in ("Eq", "NotEq"):
+            # values returned by the cell's callable model are distinct constants ("v", i) / a marker string
+            def const(v):
+                return isinstance(v, str) or (isinstance(v, tuple) and v[:1] == ("v",))
+            if const(left) and const(right):
+                return (left == right) if op == "Eq" else (left != right)
         if r is UNKNOWN and op in ("Is", "IsNot"):
             def ident(v):
                 return isinstance(v, tuple) and v[:1] in (("GLOBAL",), ("item",), ("FN",), ("OBJ",)) or isinstance(v, str)
@@ -232,9 +258,9 @@ def _items(k: int, n: int) -> List[Any]:
 
 class Cell:
     def __init__(self, label: str, pos: List[Any], kw: Dict[str, Any], lengths: Dict[int, int],
-                 oracle: Callable[[], Any], items=None, fns=None, truths=None, ranks=None):
+                 oracle: Callable[[], Any], items=None, fns=None, truths=None, ranks=None, limit=None):
         self.label, self.pos, self.kw, self.lengths, self.oracle = label, pos, kw, lengths, oracle
-        self.items, self.fns, self.truths, self.ranks = items, fns, truths, ranks
+        self.items, self.fns, self.truths, self.ranks, self.limit = items, fns, truths, ranks, limit
 
 
 def _pred_cells(stdlib_fn, pred_first: bool = True):
@@ -501,6 +527,56 @@ def _zip_cells(strict: bool):
                        [("SEQ", tuple(("IT", s) for s in slots))], {}, lengths, oracle)
 
 
+def _chain_cells():
+    for shape in [(), (0,), (0, 1), (0, 1, 2)]:
+        for lens in _it.product((0, 1, 2), repeat=len(shape)):
+            lengths = dict(zip(shape, lens))
+
+            def oracle(shape=shape, lengths=lengths):
+                srcs = [_Src(_items(k, lengths[k])) for k in shape]
+                return _observe(lambda: _it.chain(*srcs), srcs, [])
+            yield Cell("chain(" + ", ".join(f"<{lengths[k]} items>" for k in shape) + ")",
+                       [("SEQ", tuple(("IT", k) for k in shape))], {}, lengths, oracle)
+
+
+LIMIT = 7  # an endless generator is observed for this many items
+
+
+def _cycle_cells():
+    for n in range(0, 4):
+        def oracle(n=n):
+            src = _Src(_items(0, n))
+            return _observe(lambda: _it.islice(_it.cycle(src), LIMIT), [src], [])
+        yield Cell(f"{n} items, first {LIMIT} results", [("IT", 0)], {}, {0: n}, oracle, limit=LIMIT)
+
+
+def _callable_iter_cells():
+    for n in range(0, 4):
+        for stop_at in range(0, n + 1):
+            values = [("v", i) for i in range(n)] + ["SENTINEL"]
+            values = values[:stop_at] + ["SENTINEL"] + values[stop_at:]
+
+            def make_fn(values=values):
+                state = {"i": 0}
+
+                def fn(_a):
+                    state["i"] += 1
+                    return values[state["i"] - 1]
+                return fn
+
+            def oracle(values=values):
+                calls: List[Any] = []
+                state = {"i": 0}
+
+                def f():
+                    calls.append(("F", ()))
+                    state["i"] += 1
+                    return values[state["i"] - 1]
+                return _observe(lambda: iter(f, "SENTINEL"), [], calls)
+            yield Cell(f"callable returning {stop_at} values, then the sentinel", [("FN", "F"), "SENTINEL"], {}, {}, oracle,
+                       fns={"F": make_fn()})
+
+
 def _plain_iteration_cells():
     for n in range(0, 4):
         def oracle(n=n):
@@ -526,6 +602,9 @@ TOOLS: List[Tuple[str, Callable[[], Any]]] = [
     ("builtins.enumerate", _enumerate_cells),
     ("builtins.map", _map_cells),
     ("itertools.compress", _compress_cells),
+    ("itertools.chain._chain_iterator", _chain_cells),
+    ("itertools.cycle", _cycle_cells),
+    ("builtins.acallable_iterator", _callable_iter_cells),
     ("builtins._zip_inner", lambda: _zip_cells(False)),
     ("builtins._zip_inner_strict", lambda: _zip_cells(True)),
 ]
@@ -636,8 +715,12 @@ def _tables(ctx, rid: str, tools, kind: str, counter: str, fields=ALL) -> None:
             want = _expected(short, cell)
             name = short.split(".")[-1]
             std = STDLIB_NAME.get(short, name)
+            halt = None
+            if cell.limit is not None:
+                def halt(node, e, k=cell.limit):
+                    return sum(1 for ev_ in e.get("@trace", ()) if ev_[0] == "yield") >= k
             try:
-                outs = machine.run(env)
+                outs = machine.run(env, halt=halt)
             except AnalysisError:
                 if not machine.forked and want[3] != "endless":
                     bad += 1
@@ -655,8 +738,10 @@ def _tables(ctx, rid: str, tools, kind: str, counter: str, fields=ALL) -> None:
             ys = [_norm(e[1]) for e in tr if e[0] == "yield"]
             calls = [(e[1], _norm(e[2])) for e in tr if e[0] == "call"]
             taken = [oc.env.get("@itpos", {}).get(k, 0) for k in sorted(cell.lengths)]
-            if oc.terminal.kind == "exit":
-                end: Any = "return"
+            if cell.limit is not None and oc.terminal.kind not in ("exit", "raise_exit"):
+                end: Any = "return"  # observed for the agreed number of items (the oracle was cut there as well)
+            elif oc.terminal.kind == "exit":
+                end = "return"
             else:
                 exc = oc.raised
                 end = ("raise", exc[1] if isinstance(exc, tuple) and exc[:1] == ("exc",) else str(exc))
